@@ -1410,21 +1410,29 @@ class Interp:
         self.incomplete(node, 'assignment target')
 
     def _masked_flat_store(self, fa, t, node):
-        """`F[F == v] = w` / `F[np.equal(F, v)] = w` with F a flat view of the local array A: every cell of A that holds v
-        gets w.  Read as the sweep it abbreviates - `for r: for c: if A[r, c] == v: A[r, c] = w` (a cell is tested before it
-        is written and only matching cells are written, so the interleaving does not matter; v and w are scalars)."""
+        """`F[F == v] = w` / `F[np.equal(F, v)] = w` (any single comparison) with F a flat view of the local array A: every cell
+        of A that passes the test gets w.  Read as the sweep it abbreviates - `for r: for c: if A[r, c] == v: A[r, c] = w` (a
+        cell's test looks at that cell alone, before it is written, so the interleaving does not matter; v and w are scalars)."""
         arr = fa.arr
         if self.env.get(arr.var) is not arr or not isinstance(arr.shape, (list, tuple)) or len(arr.shape) not in (1, 2):
             return False
         m_ = t.slice
         is_f = lambda x: isinstance(x, ast.Name) and self.env.get(x.id) is fa      # noqa
         other = None
-        if isinstance(m_, ast.Compare) and len(m_.ops) == 1 and isinstance(m_.ops[0], ast.Eq):
-            a_, b_ = m_.left, m_.comparators[0]
-            other = b_ if is_f(a_) else (a_ if is_f(b_) else None)
-        elif isinstance(m_, ast.Call) and norm(m_.func).split('.')[-1] == 'equal' and len(m_.args) == 2 and not m_.keywords:
-            a_, b_ = m_.args
-            other = b_ if is_f(a_) else (a_ if is_f(b_) else None)
+        opt = '=='
+        OPS = {ast.Eq: '==', ast.NotEq: '!=', ast.Lt: '<', ast.LtE: '<=', ast.Gt: '>', ast.GtE: '>='}
+        FN = {'equal': '==', 'not_equal': '!=', 'less': '<', 'less_equal': '<=', 'greater': '>', 'greater_equal': '>='}
+        MIRROR = {'==': '==', '!=': '!=', '<': '>', '<=': '>=', '>': '<', '>=': '<='}
+        a_ = b_ = None
+        if isinstance(m_, ast.Compare) and len(m_.ops) == 1 and type(m_.ops[0]) in OPS:
+            a_, b_, opt = m_.left, m_.comparators[0], OPS[type(m_.ops[0])]
+        elif isinstance(m_, ast.Call) and norm(m_.func).split('.')[-1] in FN and len(m_.args) == 2 and not m_.keywords:
+            (a_, b_), opt = m_.args, FN[norm(m_.func).split('.')[-1]]
+        if a_ is not None:
+            if is_f(a_):
+                other = b_
+            elif is_f(b_):
+                other, opt = a_, MIRROR[opt]
         val = node.value if isinstance(node, ast.Assign) else None
         if other is None or val is None:
             return False
@@ -1440,7 +1448,7 @@ class Interp:
         src = ''
         for i_, v_ in enumerate(vs):
             src += '    ' * i_ + 'for %s in range(%s.shape[%d]):\n' % (v_, arr.var, i_)
-        src += '    ' * len(vs) + 'if %s == %s:\n' % (cell, ast.unparse(other))
+        src += '    ' * len(vs) + 'if %s %s %s:\n' % (cell, opt, ast.unparse(other))
         src += '    ' * (len(vs) + 1) + '%s = %s\n' % (cell, ast.unparse(val))
         loop = ast.parse(src).body[0]
         for n_ in ast.walk(loop):
